@@ -182,6 +182,22 @@ func (c *Conn) Prelude(kind string) string {
 		return ""
 	}
 	msg := ""
+	// "idle": the client has only been connected, long ago (longer than the handshake
+	// time-out); "ok+idle": an earlier query under a 10 s context ended well, and that
+	// deadline has passed since
+	idle := time.Duration(0)
+	switch kind {
+	case "idle":
+		vsched.Quiet(func() { simnet.Gap(6 * time.Minute) })
+		return ""
+	case "ok+idle":
+		kind, idle = "ok", 11*time.Second
+	}
+	defer func() {
+		if idle > 0 && msg == "" {
+			vsched.Quiet(func() { simnet.Gap(idle) })
+		}
+	}()
 	vsched.Quiet(func() {
 		before := c.C.OutLen()
 		reply := EOS()
